@@ -1,6 +1,6 @@
 (* C07 -- property theorems only; each closed by `exact` and followed by Print Assumptions. *)
-Require Import SF.Prelude SF.PySlice SF.Dtype SF.PyDyn Gen.Gen_util SF.Coerce.
-Require Import Proofs.CoerceRefine Proofs.CoerceHolds Proofs.CoerceMain.
+Require Import SF.Prelude SF.PySlice SF.Dtype SF.PyDyn Gen.Gen_util Gen.Gen_c07 SF.Coerce SF.CoerceDyn.
+Require Import Proofs.CoerceRefine Proofs.CoerceHolds Proofs.CoercePlans Proofs.CoerceMain Proofs.CoerceBloc Proofs.CoerceOps.
 
 (* util.resolve_dtype AS REGENERATED FROM THE SOURCE returns, for every pair of dtypes outside the explicit
    lossy pairs, a dtype whose value domain contains every value of either argument: unbounded string widths,
@@ -13,3 +13,125 @@ Theorem C07_resolve_dtype_no_loss : forall d1 d2 v,
             (time_fits r v = true -> holds r v = true).
 Proof. exact gen_resolve_no_loss. Qed.
 Print Assumptions C07_resolve_dtype_no_loss.
+
+(* the call sites pass the two dtypes in either order: the regenerated kernel does not care *)
+Theorem C07_resolve_dtype_comm : forall d1 d2,
+  resolve_dtype (PDtype d1) (PDtype d2) = resolve_dtype (PDtype d2) (PDtype d1).
+Proof. exact gen_resolve_comm. Qed.
+Print Assumptions C07_resolve_dtype_comm.
+
+(* n arrays / n blocks: the loop of util.resolve_dtype_iter (with its early return at object) and the loop of
+   util.concat_resolved (with its `!= object` test and flipped arguments) both compute the left fold of the
+   regenerated kernel, and that dtype holds every value of every participant -- for every number of
+   participants, every order. *)
+Theorem C07_nary_no_loss : forall ds acc v,
+  wf_dtype acc = true -> Forall (fun d => wf_dtype d = true) ds ->
+  fold_ok acc ds = true -> fold_fits acc ds v = true ->
+  holds acc v = true \/ Exists (fun d => holds d v = true) ds ->
+  resolve_iter_loop acc ds = fold_left gen_resolve ds acc /\
+  concat_loop acc ds = fold_left gen_resolve ds acc /\
+  holds (fold_left gen_resolve ds acc) v = true.
+Proof. exact nary_no_loss. Qed.
+Print Assumptions C07_nary_no_loss.
+
+(* util.dtype_from_element picks a dtype that holds the element (big Python ints go to uint64, then object) *)
+Theorem C07_dtype_from_element_holds : forall e, wf_elem e = true ->
+  holds (elem_dtype e) (elem_val e) = true /\ wf_dtype (elem_dtype e) = true.
+Proof. exact elem_dtype_holds. Qed.
+Print Assumptions C07_dtype_from_element_holds.
+
+(* one element meets a column (full_for_fill, assignment, fillna, shift, reindex): every cell of the column and the
+   element survive in the dtype resolve_dtype(column dtype, dtype_from_element(element)) *)
+Theorem C07_fill_no_loss : forall d e,
+  wf_dtype d = true -> wf_elem e = true -> lossy_pair d (elem_dtype e) = false ->
+  let dr := resolve d (elem_dtype e) in
+  (forall v, holds d v = true -> time_fits dr v = true -> to_object_ok d v = true -> survives dr (FromArr d v) = true) /\
+  (time_fits dr (elem_val e) = true -> survives dr (FromElem e) = true).
+Proof. exact fill_no_loss. Qed.
+Print Assumptions C07_fill_no_loss.
+
+(* the flag loop of util.prepare_iter_for_array (with its break) decides object exactly for: a tuple/list, a str next
+   to a non-str, a big Python int next to a Python float/complex; then every element is kept as it is *)
+Theorem C07_iter_flags_spec : forall es, f_obj (iter_flags es) = iter_object_spec es.
+Proof. exact iter_flags_spec. Qed.
+Print Assumptions C07_iter_flags_spec.
+
+Theorem C07_iter_object_no_loss : forall es cells,
+  iter_object_spec es = true ->
+  exists dr, plan_dtype (PIter es) = Ok dr /\ forall e, In (FromElem e) cells -> survives dr (FromElem e) = true.
+Proof. exact iter_object_no_loss. Qed.
+Print Assumptions C07_iter_object_no_loss.
+
+(* the `resolved = object` condition and the big-int threshold READ FROM THE SOURCE are the model's, and an int
+   below the threshold is exact in float64 *)
+Theorem C07_iter_object_cond_source : forall t s n i b,
+  gen_iter_object_cond t false s n i b = t || (s && n) || (b && i).
+Proof. exact gen_iter_object_cond_eq. Qed.
+Print Assumptions C07_iter_object_cond_source.
+
+Theorem C07_big_int_threshold_exact : forall z,
+  INT_MAX_COERCIBLE_TO_FLOAT = GEN_INT_MAX_COERCIBLE_TO_FLOAT /\
+  (Z.abs z <= GEN_INT_MAX_COERCIBLE_TO_FLOAT -> holds (DFlt 8) (XInt z) = true).
+Proof. exact gen_threshold_exact. Qed.
+Print Assumptions C07_big_int_threshold_exact.
+
+(* util.dtype_to_fill_value (regenerated): the dummy fill value belongs to the dtype it is computed for *)
+Theorem C07_fill_value_held : forall d, wf_dtype d = true -> (forall n, d <> DBytes n) ->
+  exists e, decode_elem (dtype_to_fill_value (PDtype d)) = Some e /\ holds d (elem_val e) = true.
+Proof. exact gen_fill_value_held. Qed.
+Print Assumptions C07_fill_value_held.
+
+(* an observation accepted by the implementation model M satisfies the specification S whenever the plan's dtype
+   keeps the supplied cells (which the theorems above establish under their guards) *)
+Theorem C07_model_sound : forall p cells od obs dr,
+  plan_dtype p = Ok dr -> (forall s, In s cells -> survives dr s = true) ->
+  M_check p cells od obs = true -> S_cells cells obs = true /\ od = dr.
+Proof. exact model_sound. Qed.
+Print Assumptions C07_model_sound.
+
+(* element assignment by Boolean targets (assign.bloc, fillna): for EVERY block layout in which no block mixes
+   targeted and untargeted columns the block-by-block algorithm gives each column the dtype the per-column
+   specification demands (untargeted columns keep theirs) *)
+Theorem C07_bloc_untouched_dtype : forall blocks hits vd,
+  length hits = total_width blocks -> bloc_uniform blocks hits vd = true ->
+  M_bloc blocks hits vd = S_bloc (expand_blocks blocks) hits vd.
+Proof. exact bloc_refines. Qed.
+Print Assumptions C07_bloc_untouched_dtype.
+
+(* OPERATION level, every arrangement and every number of cells: an observation that M accepts for "one element e
+   meets a column of dtype d" (reindex / shift / assign / insert with full_for_fill; fillna / IndexGO.append with the
+   arguments flipped) stores every kept cell of the column and the element unchanged, in the dtype
+   resolve(d, dtype_from_element e) *)
+Theorem C07_fill_operation_lossless : forall d e cells od obs,
+  wf_dtype d = true -> wf_elem e = true -> lossy_pair d (elem_dtype e) = false ->
+  (forall s, In s cells -> fill_cell_ok d e (resolve d (elem_dtype e)) s) ->
+  M_check (PFill d e) cells od obs = true ->
+  S_cells cells obs = true /\ od = resolve d (elem_dtype e).
+Proof. exact fill_operation_lossless. Qed.
+Print Assumptions C07_fill_operation_lossless.
+
+Theorem C07_fillr_operation_lossless : forall d e cells od obs,
+  wf_dtype d = true -> wf_elem e = true -> lossy_pair d (elem_dtype e) = false ->
+  (forall s, In s cells -> fill_cell_ok d e (resolve d (elem_dtype e)) s) ->
+  M_check (PFillR d e) cells od obs = true ->
+  S_cells cells obs = true /\ od = resolve d (elem_dtype e).
+Proof. exact fillr_operation_lossless. Qed.
+Print Assumptions C07_fillr_operation_lossless.
+
+(* concatenation of any number of arrays (util.concat_resolved) and consolidation of a row over any number of
+   blocks (util.resolve_dtype_iter): every cell of every participant is stored unchanged *)
+Theorem C07_concat_operation_lossless : forall d ds cells od obs,
+  wf_dtype d = true -> Forall (fun x => wf_dtype x = true) ds -> fold_ok d ds = true ->
+  (forall s, In s cells -> merge_cell_ok d ds s) ->
+  M_check (PConcat d ds) cells od obs = true ->
+  S_cells cells obs = true /\ od = resolve_all d ds.
+Proof. exact concat_operation_lossless. Qed.
+Print Assumptions C07_concat_operation_lossless.
+
+Theorem C07_row_operation_lossless : forall d ds cells od obs,
+  wf_dtype d = true -> Forall (fun x => wf_dtype x = true) ds -> fold_ok d ds = true ->
+  (forall s, In s cells -> merge_cell_ok d ds s) ->
+  M_check (PIterDt d ds) cells od obs = true ->
+  S_cells cells obs = true /\ od = resolve_all d ds.
+Proof. exact row_operation_lossless. Qed.
+Print Assumptions C07_row_operation_lossless.
